@@ -107,6 +107,11 @@ func runBatch() {
 		for k, v := range r.Counters {
 			out.Counters[k] += v
 		}
+		if strings.HasPrefix(r.Fatal, "watchdog:") {
+			// the other runs of this batch would wait just as long: one report is enough
+			out.Fatal = append(out.Fatal, r.Fatal)
+			break
+		}
 		if r.Fatal != "" && !strings.HasPrefix(r.Fatal, "stop:") {
 			out.Fatal = append(out.Fatal, r.Fatal)
 		}
